@@ -20,7 +20,11 @@ class Reject(Exception):
 
 
 class DontCare(Exception):
-    pass
+    """lossy=True: even decode(encode(v)) == v is not expected (e.g. bits outside a BIT-MASK are dropped by design)"""
+
+    def __init__(self, msg: str = "", lossy: bool = False) -> None:
+        super().__init__(msg)
+        self.lossy = lossy
 
 
 class Short(Exception):
@@ -312,11 +316,11 @@ class Interp:
             mask = d.get("mask")
             if base in ("A_INT32", "A_UINT32"):
                 if mask is not None and d.get("condensed"):
-                    raise DontCare("condensed bit mask")
+                    raise DontCare("condensed bit mask", lossy=True)
                 raw = int_to_raw(internal, base, enc, n)
                 if mask is not None:
                     if raw & ~mask:
-                        raise DontCare("value outside the bit mask")
+                        raise DontCare("value outside the bit mask", lossy=True)
                     return e.place_word(raw & mask, n, byte, bit, hilo, True, mask & ((1 << n) - 1))
                 return e.place_word(raw, n, byte, bit, hilo, True)
             if base in ("A_FLOAT32", "A_FLOAT64"):
@@ -331,10 +335,10 @@ class Interp:
                 raise Reject(f"value occupies {len(bs)} bytes, the type has {n} bits")
             if mask is not None:
                 if d.get("condensed"):
-                    raise DontCare("condensed bit mask")
+                    raise DontCare("condensed bit mask", lossy=True)
                 mb = (mask & ((1 << n) - 1)).to_bytes(n // 8, "big")
                 if any(b & ~m & 0xFF for b, m in zip(bs, mb)):
-                    raise DontCare("value outside the bit mask")
+                    raise DontCare("value outside the bit mask", lossy=True)
                 e.put(byte, bs, mb)
                 return byte + len(bs)
             e.put(byte, bs)
@@ -608,7 +612,7 @@ class Interp:
             return pos, outs
         if kind == "mux":
             if not (isinstance(value, (tuple, list)) and len(value) == 2 and isinstance(value[0], str)):
-                raise DontCare("mux value form")
+                raise DontCare("mux value form", lossy=True)
             cname, cval = value
             case = next((c for c in d["cases"] if c["name"] == cname), None)
             key = d["key"]
@@ -814,7 +818,10 @@ class Interp:
                 if n is None:
                     raise DontCare("table key without static size")
                 if p.get("row") is not None:
-                    raise DontCare("TABLE-KEY with TABLE-ROW-REF")
+                    # the row is fixed by TABLE-ROW-REF; its key is still part of the PDU
+                    if v is not None and v != p["row"]:
+                        raise Reject("table key differs from the referenced row")
+                    e.table_keys[name] = p["row"]
                 cursor = byte + (bit + n + 7) // 8
                 e.extend_to(cursor)
                 pending_keys.append((p, byte))
@@ -953,12 +960,12 @@ class Interp:
                 out[name] = v
             elif t == "TABLE-KEY":
                 table = self.dops[p["table"]]
-                if p.get("row") is not None:
-                    raise DontCare("TABLE-KEY with TABLE-ROW-REF")
                 kv, cursor = self.dec_dop(table["key_dop"], pdu, byte, bit, lk)
                 row = next((r for r in table["rows"] if r["key"] == kv), None)
                 if row is None:
                     raise Mismatch("no table row for key")
+                if p.get("row") is not None and row["name"] != p["row"]:
+                    raise Mismatch("key differs from the referenced row")
                 tk[name] = row
                 out[name] = row["name"]
             elif t == "TABLE-STRUCT":
@@ -981,6 +988,8 @@ class Interp:
     def encode(self, msg: str, values: Dict[str, Any], request: Optional[bytes] = None) -> Tuple[bytes, Dict[str, Any], Enc]:
         e = Enc(request)
         end, out = self.enc_params(self.msgs[msg]["params"], dict(values), e, 0, True)
+        if end > len(e.pdu):
+            raise DontCare("an empty object placed beyond the end of the PDU", lossy=True)
         return bytes(e.pdu), out, e
 
     def decode(self, msg: str, pdu: bytes) -> Tuple[Dict[str, Any], int]:
